@@ -169,3 +169,62 @@ Theorem C05_write_is_source : forall o fuel t, (size t < fuel)%nat ->
   ImpGen.imp_newick_Node_Write fuel o (ImpProofsI.node_of t) = GoSem.Ret (write_chunks o t, false).
 Proof. exact ImpProofsI.imp_newick_Write. Qed.
 Print Assumptions C05_write_is_source.
+
+(* ---- the tree reader, as translated from newick.go ------------------------------------------------------
+   reader.read() builds the tree through pointers: a child is linked into its parent's Children
+   the moment it is created and is then filled in through the stack of *Node.  gen-imp translates
+   it with a *Node as an address into a heap of Node records (Name, Distance, Children as
+   addresses); [ImpProofsR.holds h bound a t] says that the heap h holds the tree t at address a
+   (inside [a, bound)).  For every heap, every input, both terminal conditions and every float
+   oracle the translated read() answers like the model's read_tree: on success the address of a
+   node that holds the model's tree and the model's unread rest, io.EOF (1) exactly when no token
+   was read, another error (2, or 3 for io.ErrUnexpectedEOF) exactly where the model has one;
+   the heap below its old length is never written. *)
+From Bio.Proofs Require ImpProofsR.
+
+Theorem C05_read_is_source : forall o tm fuel h s last r0, (length s + 2 < fuel)%nat ->
+  ImpProofsR.rd_agrees tm (GoSem.go_len h) h (read_tree o s tm)
+    (ImpGen.imp_newickrd_reader_read fuel o h (GoSem.Stream s (ImpProofsJ.term_code tm) last) r0).
+Proof. exact ImpProofsR.imp_read_ok. Qed.
+Print Assumptions C05_read_is_source.
+
+(* what [rd_agrees] says, spelled out for the successful case *)
+Theorem C05_read_is_source_ok : forall o tm fuel h s last r0 t rest, (length s + 2 < fuel)%nat ->
+  read_tree o s tm = ROk t rest ->
+  exists last' rbuf h' a,
+    ImpGen.imp_newickrd_reader_read fuel o h (GoSem.Stream s (ImpProofsJ.term_code tm) last) r0
+    = GoSem.Ret (GoSem.Stream rest (ImpProofsJ.term_code tm) last', rbuf, (h', (a, 0%Z))) /\
+    ImpProofsR.holds h' (GoSem.go_len h') a t /\ ImpProofsR.keeps (GoSem.go_len h) h h'.
+Proof.
+  intros o tm fuel h s last r0 t rest Hf Hr.
+  pose proof (ImpProofsR.imp_read_ok o tm fuel h s last r0 Hf) as H. rewrite Hr in H.
+  destruct H as (l & rb & h' & a & E & Hh & Hk & _). exists l, rb, h', a. auto.
+Qed.
+Print Assumptions C05_read_is_source_ok.
+
+(* Write, then read, both as translated: MarshalText of any tree (floats covered by the oracle),
+   surrounded by any white space before and anything after, read by the translated reader, leaves
+   a heap that holds the same tree (up to the sign of a zero distance, [norm]) and the rest. *)
+Theorem C05_roundtrip_is_source : forall o tm t ws rest fuel fuel2 h last r0,
+  ws_string ws -> floats_ok o t -> (size t < fuel)%nat ->
+  (length (ws ++ marshal o t ++ rest) + 2 < fuel2)%nat ->
+  exists text, ImpGen.imp_newick_Node_MarshalText fuel o (ImpProofsI.node_of t) = GoSem.Ret (text, false) /\
+  exists last' rbuf h' a,
+    ImpGen.imp_newickrd_reader_read fuel2 o h (GoSem.Stream (ws ++ text ++ rest) (ImpProofsJ.term_code tm) last) r0
+    = GoSem.Ret (GoSem.Stream rest (ImpProofsJ.term_code tm) last', rbuf, (h', (a, 0%Z))) /\
+    ImpProofsR.holds h' (GoSem.go_len h') a (norm t) /\ ImpProofsR.keeps (GoSem.go_len h) h h'.
+Proof. exact ImpProofsR.imp_newick_roundtrip. Qed.
+Print Assumptions C05_roundtrip_is_source.
+
+Example C05_source_read_example :
+  let o := {| f_parse := [(bs "1.5", bs "1.5")]; f_fmt := [] |} in
+  ImpGen.imp_newickrd_reader_read 40 o [] (GoSem.Stream (bs "(a:1.5,'b c')r; x") 1%Z None) (ImpGen.Imp_newickrd_reader [])
+  = GoSem.Ret (GoSem.Stream (bs " x") 1%Z (Some 59%N), ImpGen.Imp_newickrd_reader [],
+               ([ImpGen.Imp_newickrd_Node (bs "r") [48%N] [1%Z; 2%Z];
+                 ImpGen.Imp_newickrd_Node (bs "a") (bs "1.5") [];
+                 ImpGen.Imp_newickrd_Node (bs "b c") [48%N] []], (0%Z, 0%Z)))
+  /\ ImpProofsR.holds [ImpGen.Imp_newickrd_Node (bs "r") [48%N] [1%Z; 2%Z];
+                       ImpGen.Imp_newickrd_Node (bs "a") (bs "1.5") [];
+                       ImpGen.Imp_newickrd_Node (bs "b c") [48%N] []] 3 0
+       (Node (bs "r") [48%N] [Node (bs "a") (bs "1.5") []; Node (bs "b c") [48%N] []]).
+Proof. split; [vm_compute; reflexivity|]. cbn. repeat split; try lia; eexists; (split; [reflexivity|]); repeat split; try lia; eexists; split; reflexivity || exact I. Qed.
